@@ -608,6 +608,12 @@ THREAD_POOL = [
     "SELECT x.a FROM x",
     "INSERT INTO t9 SELECT w.a, w.b, w.c FROM (SELECT a, b, c FROM t1) w",
     "WITH w AS (SELECT a FROM t2) INSERT INTO t9 (a) SELECT w.a FROM w",
+    # the SAME derived-table / WITH-body text as a statement above, in a scope where the table it reads is a WITH table of that name: a result remembered per sub-query
+    # tree (and not per tree AND scope) hands one statement the other's lineage (seeded C12-12)
+    "WITH t1 AS (SELECT c AS a FROM t2) SELECT x.a FROM (SELECT a FROM t1) x",
+    "WITH t1 AS (SELECT b AS a FROM t3) INSERT INTO t9 (a) SELECT x.a FROM (SELECT a FROM t1) x",
+    "WITH t2 AS (SELECT b AS a, a AS c FROM t1) SELECT x.c, y.b FROM (SELECT a, c FROM t2) x JOIN (SELECT a, b FROM t3) y ON x.a = y.a",
+    "WITH t1 AS (SELECT c AS a, a AS b FROM t2), w AS (SELECT a, b FROM t1) SELECT w.a, w.b FROM w",
 ]
 
 
